@@ -774,9 +774,15 @@ func (m *MW) verifyStates(mint string, Ys []string, r *Resp) {
 	for _, p := range m.User.Purse[mint] {
 		exp[p.Y()] = "UNSPENT"
 	}
+	mbk := m.W.Book.Mint(mint)
 	for _, p := range m.Spent[mint] {
 		exp[p.Y()] = "SPENT"
 		wit[p.Y()] = p.Witness
+		// the witness it was spent with is the one in the request that consumed it on the wire (an
+		// attacker's copy with another witness may have won a released proof)
+		if r := mbk.Secrets[p.Secret]; r != nil && len(r.Cons) > 0 {
+			wit[p.Y()] = r.Witness
+		}
 	}
 	for _, pm := range m.Pending {
 		if pm.Mint != mint || !pm.Known {
